@@ -1315,6 +1315,10 @@ pub mod verif {
             .collect()
     }
     // --- end C17 ---
+    // --- C37: block-quantized kernels with a chosen ISA (b-C37) ---
+    pub use crate::block_quant::verif as block_quant;
+    pub use crate::i8dot::verif::INT8_DOT_ISAS;
+    // --- end C37 ---
 
     // --- C16: kernel-call trace, f32 kernel selection, thread pools (b-C16) ---
     /// One event per micro-kernel / gemv-kernel invocation or bias step made
